@@ -34,3 +34,15 @@ Print Assumptions C08_unbounded_markers_refuted.
 Theorem C08_facts_extracted : CsModel.Extracted.facts_found_C08 = true.
 Proof. reflexivity. Qed.
 Print Assumptions C08_facts_extracted.
+
+(* borrowed text views: derived by the compiler from their fields (no hand-written marker for any other type in the
+   library: extracted from the CURRENT source), so a view that is Send or Sync has thread-safe data and borrows a resolver
+   that may be shared between threads *)
+Theorem C08_no_other_markers : other_marker_impls = 0%nat.
+Proof. reflexivity. Qed.
+Print Assumptions C08_no_other_markers.
+
+Theorem C08_views_sound : forall a i_sync,
+  view_ok node_sync_bounds a i_sync = true -> deep false a = true /\ i_sync = true.
+Proof. apply (view_sound_of node_send_bounds node_sync_bounds ctor_resolver_bounds). vm_compute. reflexivity. Qed.
+Print Assumptions C08_views_sound.
